@@ -30,6 +30,7 @@ const (
 	MTDockerLayer  = "application/vnd.docker.image.rootfs.diff.tar.gzip"
 	MTDockerForeign = "application/vnd.docker.image.rootfs.foreign.diff.tar.gzip"
 	MTDockerSchema1 = "application/vnd.docker.distribution.manifest.v1+json"
+	MTDockerSchema1Signed = "application/vnd.docker.distribution.manifest.v1+prettyjws"
 	MTOCIArtifact   = "application/vnd.oci.artifact.manifest.v1+json"
 )
 
@@ -72,6 +73,7 @@ type Node struct {
 	ArtType   string
 	Annot     map[string]string
 	Platform  *Platform
+	Payload   []byte // signed schema1: the canonical payload the digest is computed over
 }
 
 // Graph is a generated image with its surroundings in the source repository.
@@ -287,6 +289,24 @@ func (g *G) Schema1() *Node {
 	fields := []kv{{"schemaVersion", 1}, {"name", "proj/app"}, {"tag", "v1"}, {"architecture", "amd64"}, {"fsLayers", fs}, {"history", hist}}
 	n.Raw = g.marshal(fields)
 	n.Digest = regmodel.Digest(g.Alg, n.Raw)
+	return n
+}
+
+// Schema1Signed generates a signed Docker schema1 manifest in libtrust's "pretty signature" format.
+// Its digest is that of the canonical payload (the body without the signatures block), not of the raw bytes.
+func (g *G) Schema1Signed() *Node {
+	u := g.Schema1()
+	// re-serialise compactly so that the payload ends in "}"
+	var v any
+	_ = json.Unmarshal(u.Raw, &v)
+	payload, _ := json.Marshal(v)
+	prefix, tail := payload[:len(payload)-1], payload[len(payload)-1:]
+	prot, _ := json.Marshal(map[string]any{"formatLength": len(prefix), "formatTail": base64.RawURLEncoding.EncodeToString(tail), "time": "2020-01-01T00:00:00Z"})
+	sig := fmt.Sprintf(`,"signatures":[{"header":{"alg":"ES256"},"signature":"c2lnbmF0dXJl","protected":"%s"}]`, base64.RawURLEncoding.EncodeToString(prot))
+	n := &Node{Kind: "schema1-signed", MediaType: MTDockerSchema1Signed, Blobs: u.Blobs}
+	n.Raw = append(append(append([]byte{}, prefix...), []byte(sig)...), tail...)
+	n.Payload = payload
+	n.Digest = regmodel.Digest(g.Alg, payload)
 	return n
 }
 
